@@ -1,4 +1,5 @@
 mod big;
+mod book19;
 mod floatchk;
 mod native;
 mod ops;
@@ -101,6 +102,7 @@ fn main() {
             let full = argv.get(5).map(|s| s == "full").unwrap_or(false);
             match which {
                 "c13" => native::c13(n, seed, full),
+                "c19" => book19::c19(n as usize),
                 "c06" => floatchk::c06(n, seed),
                 "c07" => floatchk::c07(n, seed),
                 "c09" => floatchk::c09(n, seed),
